@@ -1,4 +1,5 @@
 import VgiVerif.Prelude.PyVal
+import VgiVerif.Prelude.DcAnn
 import VgiVerif.Gen.C03
 /-
 C03 model — `ArrowSerializableDataclass` (vgi_rpc/utils.py) and the HTTP state payload (vgi_rpc/http/server/_state_token.py).
@@ -19,37 +20,6 @@ frozenset / dict; the compact plan claiming explicit-ArrowType fields) are read 
 -/
 namespace VgiVerif.C03
 open VgiVerif.Py
-
-inductive Scalar where
-  | str | bytes | int | float | bool
-deriving Repr, DecidableEq, Inhabited
-
-def Scalar.name : Scalar → String
-  | .str => "str" | .bytes => "bytes" | .int => "int" | .float => "float" | .bool => "bool"
-
-mutual
-/-- the documented field-annotation grammar -/
-inductive Ann where
-  | scalar (s : Scalar)
-  | intW (w : IntW)                         -- `Annotated[int, ArrowType(pa.<w>())]`
-  | float32                                 -- `Annotated[float, ArrowType(pa.float32())]`
-  | enum (members : List (List Char × Option (List Char)))   -- (name, value when it is a `str`), definition order
-  | opt (a : Ann)                           -- `a | None`   (`opt (dcBin …)` = `Annotated[Cls | None, ArrowType(pa.binary())]`)
-  | list (a : Ann)
-  | set (a : Ann)                           -- `frozenset[a]`
-  | map (k v : Ann)                         -- `dict[k, v]`
-  | dc (name : List Char) (fs : Fields)     -- nested dataclass stored as a struct
-  | dcBin (name : List Char) (fs : Fields)  -- `Annotated[Cls, ArrowType(pa.binary())]` (field level only)
-  | schema                                  -- `pa.Schema`
-  | batch                                   -- `pa.RecordBatch`
-/-- the fields of a dataclass, in definition order; `dflt` = the default / `default_factory()` value -/
-inductive Fields where
-  | nil
-  | cons (name : List Char) (transient : Bool) (dflt : Option V) (a : Ann) (rest : Fields)
-end
-
-instance : Inhabited Ann := ⟨.schema⟩
-instance : Inhabited Fields := ⟨.nil⟩
 
 def scalarATy (s : Scalar) : ATy :=
   match Gen.C03.scalarArrow.lookup s.name with
@@ -84,7 +54,7 @@ def pairM (fk fv : V → R V) (p : V × V) : R V := do
   pure (.tuple [a, b])
 
 mutual
-/-- `_convert_value_for_serialization` (and, for a `dcBin` field, the `serialize_to_bytes()` of `_to_row_dict`) -/
+/-- `_convert_value_for_serialization` -/
 def ser (env : Env) : Ann → V → R V
   | _, .none => .ok .none
   | .opt a, v => ser env a v
@@ -93,13 +63,22 @@ def ser (env : Env) : Ann → V → R V
   | .set a, .set xs => do let ys ← xs.mapM (ser env a); pure (.list ys)
   | .map k v, .dict kvs => do let ys ← kvs.mapM (pairM (ser env k) (ser env v)); pure (.list ys)
   | .dc _ fs, .obj _ ofs => do let row ← toRow env fs ofs; pure (.dict row)
+  | .dcBin _ fs, .obj _ ofs => do let row ← toRow env fs ofs; pure (.dict row)   -- the binary marker only acts on a field
+  | .schema, .arrowObj k i => .ok (.ipc (.arrowObj k i))
+  | .batch, .arrowObj k i => .ok (.ipc (.arrowObj k i))
+  | _, v => .ok v
+/-- one field of `_to_row_dict`: a `binary_dataclass` field holding a dataclass is `value.serialize_to_bytes()`,
+anything else is converted -/
+def serField (env : Env) : Ann → V → R V
   | .dcBin _ fs, .obj _ ofs => do
     let row ← toRow env fs ofs
     let r ← arrowS env (inferF fs) row
     pure (.ipc (.dict r))
-  | .schema, .arrowObj k i => .ok (.ipc (.arrowObj k i))
-  | .batch, .arrowObj k i => .ok (.ipc (.arrowObj k i))
-  | _, v => .ok v
+  | .opt (.dcBin _ fs), .obj _ ofs => do
+    let row ← toRow env fs ofs
+    let r ← arrowS env (inferF fs) row
+    pure (.ipc (.dict r))
+  | a, v => ser env a v
 /-- `_to_row_dict`: non-transient fields, `getattr(self, name)` converted -/
 def toRow (env : Env) : Fields → List (List Char × V) → R (List (V × V))
   | .nil, _ => .ok []
@@ -109,7 +88,7 @@ def toRow (env : Env) : Fields → List (List Char × V) → R (List (V × V))
       match fieldGet ofs n with
       | Option.none => .error .typeError           -- AttributeError: not an instance of the class
       | some v => do
-        let x ← ser env a v
+        let x ← serField env a v
         let r ← toRow env rest ofs
         pure ((.str n, x) :: r)
 end
@@ -242,113 +221,6 @@ def roundtrip (env : Env) (a : Ann) (v : V) : R V := do
 def roundtripBytes (env : Env) (n : List Char) (fs : Fields) (ofs : List (List Char × V)) : R V := do
   let b ← serBytes env fs ofs
   fromBytes env n fs b
-
-/-! ### what "an instance of the annotation" means, and what comes back -/
-
-def int64Fits (i : Int) : Bool := IntW.i64.fits i
-
-mutual
-/-- well-typed instances: the Python type the annotation names, representable in the declared Arrow type;
-sets and dict keys pairwise distinct (they come from a real frozenset / dict); dict keys not `None` -/
-def inhabits (env : Env) : Ann → V → Bool
-  | .scalar .str, .str _ => true
-  | .scalar .bytes, .bytes _ => true
-  | .scalar .int, .int i => int64Fits i
-  | .scalar .float, .float _ => true
-  | .scalar .bool, .bool _ => true
-  | .intW w, .int i => w.fits i
-  | .float32, .float _ => true
-  | .enum ms, .enum n => ms.any (fun m => m.1 == n)
-  | .opt _, .none => true
-  | .opt a, v => inhabits env a v
-  | .list a, .list xs => xs.all (inhabits env a)
-  | .set a, .set xs => xs.all (inhabits env a) && pyDistinct xs
-  | .map k v, .dict kvs =>
-    kvs.all (fun p => inhabits env k p.1 && inhabits env v p.2 && (match p.1 with | .none => false | _ => true))
-      && pyDistinct (kvs.map Prod.fst)
-  | .dc n fs, .obj n' ofs => n == n' && inhabitsF env fs ofs
-  | .dcBin n fs, .obj n' ofs => n == n' && inhabitsF env fs ofs
-  | .schema, .arrowObj k _ => k == 0
-  | .batch, .arrowObj k _ => k == 1
-  | _, _ => false
-/-- the object's fields are exactly the class's, in order; a transient field may hold anything -/
-def inhabitsF (env : Env) : Fields → List (List Char × V) → Bool
-  | .nil, [] => true
-  | .cons n tr _ a rest, (n', v) :: ofs => n == n' && (tr || inhabits env a v) && inhabitsF env rest ofs
-  | _, _ => false
-end
-
-mutual
-/-- what a round trip is specified to return: the same value, transient fields reset to their defaults, a float32 field
-rounded to binary32 (DESIGN §7.3: rounding to the declared width is not a change); a set whose elements become equal
-that way collapses, as in Python -/
-def norm (env : Env) : Ann → V → V
-  | _, .none => .none
-  | .opt a, v => norm env a v
-  | .float32, .float b => .float (env.round32 b)
-  | .list a, .list xs => .list (xs.map (norm env a))
-  | .set a, .set xs => .set (dedup (xs.map (norm env a)))
-  | .map k v, .dict kvs => .dict (dictOfPairs (kvs.map (fun p => (norm env k p.1, norm env v p.2))))
-  | .dc _ fs, .obj n' ofs => .obj n' (normF env fs ofs)
-  | .dcBin _ fs, .obj n' ofs => .obj n' (normF env fs ofs)
-  | _, v => v
-def normF (env : Env) : Fields → List (List Char × V) → List (List Char × V)
-  | .nil, _ => []
-  | .cons n tr d a rest, ofs =>
-    (n, if tr then d.getD .none else norm env a ((fieldGet ofs n).getD .none)) :: normF env rest ofs
-end
-
-mutual
-/-- no transient field and no float32 field anywhere below: the round trip is then the identity -/
-def exact : Ann → Bool
-  | .float32 => false
-  | .opt a => exact a
-  | .list a => exact a
-  | .set a => exact a
-  | .map k v => exact k && exact v
-  | .dc _ fs => exactF fs
-  | .dcBin _ fs => exactF fs
-  | _ => true
-def exactF : Fields → Bool
-  | .nil => true
-  | .cons _ tr _ a rest => !tr && exact a && exactF rest
-end
-
-def fieldNames : Fields → List (List Char)
-  | .nil => []
-  | .cons n _ _ _ rest => n :: fieldNames rest
-
-def namesDistinct : List (List Char) → Bool
-  | [] => true
-  | n :: ns => !ns.contains n && namesDistinct ns
-
-mutual
-/-- the documented grammar, at a position inside a container / behind an Optional of a container element:
-no `ArrowType(pa.binary())` dataclass (that marker only works on a field), classes well formed -/
-def supported : Ann → Bool
-  | .opt a => supported a
-  | .list a => supported a
-  | .set a => supported a
-  | .map k v => supported k && supported v
-  | .dc _ fs => supportedF fs
-  | .dcBin _ _ => false
-  | _ => true
-/-- a class: distinct field names, every transient field has a default, every field annotation supported at field level -/
-def supportedF : Fields → Bool
-  | .nil => true
-  | .cons n tr d a rest =>
-    !(fieldNames rest).contains n && (!tr || d.isSome) && supportedTop a && supportedF rest
-/-- a field annotation: additionally `dcBin` and `opt dcBin` -/
-def supportedTop : Ann → Bool
-  | .dcBin _ fs => supportedF fs
-  | .opt (.dcBin _ fs) => supportedF fs
-  | .opt a => supported a
-  | .list a => supported a
-  | .set a => supported a
-  | .map k v => supported k && supported v
-  | .dc _ fs => supportedF fs
-  | _ => true
-end
 
 /-! ### compact codec -/
 
